@@ -165,7 +165,11 @@ func Run(c Case) pbt.Outcome {
 
 	out := pbt.Outcome{}
 	// intact: no argument (slice incl. its spare capacity, unwanted/exclude list) was modified
+	var during string
 	intact := func(op string) string {
+		if during != "" {
+			return op + ": " + during
+		}
 		for i := range back {
 			if back[i] != snap[i] {
 				return fmt.Sprintf("%s modified its input (%s): backing array now %v, was %v", op, desc, []int(back), snap)
@@ -224,20 +228,33 @@ func Run(c Case) pbt.Outcome {
 		return intact(op)
 	}
 
-	preds := []pred{
-		{fmt.Sprintf("v%%%d==%d", m, r), func(v int) bool { return v%m == r }},
-		{fmt.Sprintf("v<%d", c.C), func(v int) bool { return v < c.C }},
+	// observe is called at the start of every callback the harness hands to the library: the input must be
+	// unmodified not only after a call but also DURING it (a callback, or another goroutine, may look at it)
+	observe := func() {
+		if during != "" {
+			return
+		}
+		for i := range back {
+			if back[i] != snap[i] {
+				during = fmt.Sprintf("the input was modified while the helper was running (seen from inside a callback): backing array %v, was %v", []int(back), snap)
+				return
+			}
+		}
 	}
-	eqMod := func(a, b int) bool { return a%m == b%m }
+	preds := []pred{
+		{fmt.Sprintf("v%%%d==%d", m, r), func(v int) bool { observe(); return v%m == r }},
+		{fmt.Sprintf("v<%d", c.C), func(v int) bool { observe(); return v < c.C }},
+	}
+	eqMod := func(a, b int) bool { observe(); return a%m == b%m }
 
 	// ---- Fold / FoldReverse: order-sensitive accumulators, State != E for the string one
 	{
-		accI := func(st, v int) int { return st*31 + v }
-		accS := func(st string, v int) string { return st + strconv.Itoa(v) }
+		accI := func(st, v int) int { observe(); return st*31 + v }
+		accS := func(st string, v int) string { observe(); return st + strconv.Itoa(v) }
 		wantI, wantS := c.Seed, "<"
 		for i := 0; i < n; i++ {
-			wantI = accI(wantI, orig[i])
-			wantS = accS(wantS, orig[i])
+			wantI = wantI*31 + orig[i]
+			wantS = wantS + strconv.Itoa(orig[i])
 		}
 		gotI := slices.Fold(s, c.Seed, accI)
 		if msg := checkVal("Fold(s, seed="+strconv.Itoa(c.Seed)+", st*31+v)", gotI == wantI, gotI, wantI); msg != "" {
@@ -249,8 +266,8 @@ func Run(c Case) pbt.Outcome {
 		}
 		wantI, wantS = c.Seed, "<"
 		for i := n - 1; i >= 0; i-- {
-			wantI = accI(wantI, orig[i])
-			wantS = accS(wantS, orig[i])
+			wantI = wantI*31 + orig[i]
+			wantS = wantS + strconv.Itoa(orig[i])
 		}
 		gotI = slices.FoldReverse(s, c.Seed, accI)
 		if msg := checkVal("FoldReverse(s, seed="+strconv.Itoa(c.Seed)+", st*31+v)", gotI == wantI, gotI, wantI); msg != "" {
@@ -264,7 +281,7 @@ func Run(c Case) pbt.Outcome {
 
 	// ---- Map
 	{
-		conv := func(v int) int { return v*10 + 3 }
+		conv := func(v int) int { observe(); return v*10 + 3 }
 		want := make([]int, n)
 		for i := range orig {
 			want[i] = conv(orig[i])
@@ -273,7 +290,7 @@ func Run(c Case) pbt.Outcome {
 		if msg := checkNew("Map(s, v*10+3)", got, want); msg != "" {
 			return pbt.Fail("%s", msg)
 		}
-		gotS := slices.Map(s, func(v int) string { return "#" + strconv.Itoa(v) })
+		gotS := slices.Map(s, func(v int) string { observe(); return "#" + strconv.Itoa(v) })
 		out.Evals++
 		if len(gotS) != n {
 			return pbt.Fail("Map(s, \"#\"+str(v)) (%s) = %q: length %d, want %d", desc, gotS, len(gotS), n)
@@ -296,6 +313,7 @@ func Run(c Case) pbt.Outcome {
 			errs[i] = &callErr{i}
 		}
 		conv := func(v int) (int, error) {
+			observe()
 			k := calls
 			calls++
 			if k >= c.J && c.J >= 0 {
@@ -497,7 +515,7 @@ func Run(c Case) pbt.Outcome {
 		wantG := groupsOf(orig, func(v int) int { return v % m })
 		groupsSeen = len(wantG)
 		op := fmt.Sprintf("GroupBy(s, v%%%d)", m)
-		groups := slices.GroupBy(s, func(v int) int { return v % m })
+		groups := slices.GroupBy(s, func(v int) int { observe(); return v % m })
 		out.Evals++
 		if msg := checkGroups(op, desc, n, groups, wantG); msg != "" {
 			return pbt.Fail("%s", msg)
@@ -511,7 +529,7 @@ func Run(c Case) pbt.Outcome {
 			}
 		}
 		op = fmt.Sprintf("CountBy(s, v%%%d)", m)
-		counts := slices.CountBy(s, func(v int) int { return v % m })
+		counts := slices.CountBy(s, func(v int) int { observe(); return v % m })
 		out.Evals++
 		if msg := checkCounts(op, desc, counts, wantG); msg != "" {
 			return pbt.Fail("%s", msg)
@@ -523,7 +541,7 @@ func Run(c Case) pbt.Outcome {
 		// bool keys
 		wantB := groupsOf(orig, func(v int) bool { return v < c.C })
 		op = fmt.Sprintf("GroupBy(s, v<%d)", c.C)
-		bgroups := slices.GroupBy(s, func(v int) bool { return v < c.C })
+		bgroups := slices.GroupBy(s, func(v int) bool { observe(); return v < c.C })
 		out.Evals++
 		if msg := checkGroups(op, desc, n, bgroups, wantB); msg != "" {
 			return pbt.Fail("%s", msg)
@@ -537,7 +555,7 @@ func Run(c Case) pbt.Outcome {
 			}
 		}
 		op = fmt.Sprintf("CountBy(s, v<%d)", c.C)
-		bcounts := slices.CountBy(s, func(v int) bool { return v < c.C })
+		bcounts := slices.CountBy(s, func(v int) bool { observe(); return v < c.C })
 		out.Evals++
 		if msg := checkCounts(op, desc, bcounts, wantB); msg != "" {
 			return pbt.Fail("%s", msg)
